@@ -24,7 +24,13 @@ CLAIMED = {
 CLAIMED["C18"] = ("fault_enumeration", "3", "crash points enumerated: every byte offset of small files (exhaustive per file) and a structured sample of large ones, plus simulated writer crashes with torn chunks, restarts and live reads racing the writers; oracle: the reader raises or returns exactly the model's complete-record prefix",
          "deterministic simulation with fault injection: truncation-offset enumeration, torn writes, crash/restart, live reader vs simulated writers",
          "record definition per DESIGN C18; stub writers' format fidelity; hdf5/zlib internals real and not intercepted")
-PENDING = {k: "claimed in DESIGN.md (deterministic simulation); check under construction, not yet registered" for k in ["C03","C04","C11","C12","C13","C14"]}
+CLAIMED["C03"] = ("exploration", "3", "seeded analysis sessions over process-global parameter state with natural and injected interruptions; every completed analysis must equal bit for bit the analysis in a pristine forked process with the model's effective parameters; metamorphic partners (fft, relabelling, renaming, shift, scale)",
+         "deterministic simulation: session histories + interrupt injection (sys.settrace) + pristine-process reference",
+         "documented defaults and precedence; bitwise equality between processes on one machine; sampling, not proof")
+CLAIMED["C14"] = ("exploration", "3", "seeded operation histories over pools of shared/aliased correlators and argument objects; every result compared entry-wise with a reference model transcribed from the statement; SHA-1 snapshots of all operands/arguments before and after every call; repeated invocation",
+         "deterministic simulation: histories over shared/aliased objects + reference model + mutation snapshots",
+         "Obs/CObs arithmetic as trusted base; supported partner set per DESIGN C14; sampling, not proof")
+PENDING = {k: "claimed in DESIGN.md (deterministic simulation); check under construction, not yet registered" for k in ["C04","C11","C12","C13"]}
 def main():
     checks = []
     for pid, (cat, ref, text, tech, note) in sorted(CLAIMED.items()):
